@@ -859,15 +859,31 @@ class EvolveAppTask(BaseEvolutionTask):
                 # evolutions of the same task (one of them depends on it),
                 # those two can't share a batch. Everything from the second
                 # one on goes into further batches.
+                #
+                # The first of these batches is merged into the batch built
+                # so far, if that one applies evolutions too, so the tasks
+                # already in there count as well.
                 task_evolutions = OrderedDict()
                 extra_task_evolutions = []
                 prev_task = None
+                merged_tasks = []
+
+                if (prev_batch_type == UpgradeMethod.EVOLUTIONS and
+                    prev_batch_info is not None):
+                    merged_tasks = list(
+                        prev_batch_info.get('task_evolutions', {}).keys())
+
+                    if merged_tasks:
+                        prev_task = merged_tasks[-1]
 
                 for node in batch_nodes:
                     task = node.state['task']
                     evolution = node.state['evolution']
 
-                    if task is not prev_task and task in task_evolutions:
+                    if (task is not prev_task and
+                        (task in task_evolutions or
+                         (not extra_task_evolutions and
+                          task in merged_tasks))):
                         extra_task_evolutions.append(task_evolutions)
                         task_evolutions = OrderedDict()
 
